@@ -14,7 +14,7 @@ def Call.rank (c : Call) : Nat :=
 
 def Notif.rank (n : Notif) : Nat :=
   match n.pc with
-  | .invoke => 3 | .cas => 2 | .decode => 1 | .fin => 0
+  | .invoke => 4 | .entered => 3 | .cas => 2 | .decode => 1 | .fin => 0
 
 /-- `a` is a step of the call thread `i`. -/
 def Action.ofCall (i : Nat) : Action → Bool
@@ -143,17 +143,16 @@ theorem rank_step {cfg : Cfg} {s s' : State} {a : Action} (hg : cfg.std = true) 
       split at hs <;> simp at hs <;> subst hs <;> rank_close hg
   case nrun nid =>
     unfold stepNrun at hs
+    std_norm hg at hs
+    simp only [casStep] at hs
     split at hs
     · simp at hs
     · split at hs
-      · simp at hs; subst hs; rank_close hg
-      · split at hs
-        · simp at hs
-        · split at hs <;> simp at hs <;> subst hs <;> rank_close hg
-      · split at hs
-        · simp at hs
-        · split at hs <;> simp at hs <;> subst hs <;> rank_close hg
-      · simp at hs
+      all_goals (try (split at hs))
+      all_goals (try (split at hs))
+      all_goals (try (simp at hs))
+      all_goals (try subst hs)
+      all_goals rank_close hg
   case nwrite nid o =>
     unfold stepNwrite at hs
     split at hs
